@@ -40,6 +40,7 @@ class C17(Prop):
         "NV.C17.binary_file_roundtrip",
         "NV.C17.decoded_file_has_valid_checksum",
         "NV.C17.getField_checks_length",
+        "NV.C17.byte_model_follows_source_layout",
         "NV.C17.layout_write_read_agree",
         "NV.C17.layout_checksum_covers_file",
     ]
@@ -183,6 +184,15 @@ class C17(Prop):
                               "(found: %s)" % (m.group(1).strip() if m else "site not found"))
         if len(re.findall(r"add_to_mem_block\s*\(A_PATCH", ic)) != 1:
             raise X.TieBroken("icode.c:A_PATCH", "expected exactly one place that appends to A_PATCH")
+        cfgw = need("config_id", r"static\s+uint(\d+)_t\s+config_id\s*=").group(1)
+        drvw = need("driver_id.width", r"static\s+uint(\d+)_t\s+driver_id\s*=").group(1)
+        layout += ["/-- C: width in bytes of `static uint%s_t driver_id` / `static uint%s_t config_id` as written with sizeof -/" % (drvw, cfgw),
+                   "def driverIdBytes : Nat := %d" % (int(drvw) // 8), "def configIdBytes : Nat := %d" % (int(cfgw) // 8)]
+        for nm in ("driver_id", "config_id"):
+            if not re.search(r"fwrite \(\(char \*\) &%s, sizeof \(%s\), 1, f\)" % (nm, nm), sv) or \
+                    not re.search(r"fread \(\(char \*\) &bin_%s, sizeof \(bin_%s\), 1, f\)" % (nm, nm), lb) or \
+                    not re.search(r"uint%s_t bin_%s;" % (drvw if nm == "driver_id" else cfgw, nm), lb):
+                raise X.TieBroken("binaries.c:preamble", "%s is no longer written and read with its own size" % nm)
         layout += self.gen_relocation(src, lb, ic)
         layout += self.gen_qsort()
         return "\n".join([
